@@ -54,6 +54,10 @@ def run(report, db, tier):
     encryption_arm(report, db, M, P, fi, arms)
     compression_arm(report, db, M, fi, arms)
     switches_quiet(report, db, S, M, cg, fi, paths)
+    R2f = report.rule('R10.2f', 'a login starts unframed: _connect resets '
+                      'the framing whatever the previous login on this '
+                      'object negotiated')
+    shared.fresh_connection_state(report, R2f, db, S, M, ('framing',))
     plugin_arm(report, db, M, P, fi, arms)
     success_arm(report, db, M, fi, arms)
     disconnect_arm(report, db, S, M, fi, arms)
@@ -72,7 +76,7 @@ def run(report, db, tier):
     from ..common import borrow
     from . import c03
     borrow(report, 'R10.3v', "the request id echoed by the plugin arm survives the VarInt codec: what read returns, send accepts (C03's rules)",
-           lambda rid, c: c.startswith(('read:', 'varlong:', 'send:negative')),
+           lambda rid, c: c.startswith(('read:', 'send:negative')),
            lambda sub: c03.run(sub, db, tier))
     transport_lookup(report, db, cg, M)
 
